@@ -37,6 +37,10 @@ def run(S):
     validate_corpus(S, 'lists', [l for l, _ in found if l.startswith('C04:')], lambda: lists.native_sweep(S, 'C04', all_hits=True))
     validate_corpus(S, 'mathargs', [l for l, _ in fm if l.startswith('C04:')], lambda: mathargs.native_sweep(S, 'C04'))
     validate_corpus(S, 'imports', [l for l, _ in fi if l.startswith('C04:')], lambda: imports.native_sweep(S, 'C04'))
+    # statements of code bodies stay separated (shapes from real parses, nested conversions opaque)
+    from . import conserve
+    fs, covs = conserve.explore(S, want=('C04',), per_kind=40 if S.tier == 'quick' else 300, max_nodes=18 if S.tier == 'quick' else 40)
+    conserve.report(S, 'C04', fs)
     # token adjacency: embedded parenthesised literals, and whole small documents through the real printer
     fa = adjacency.explore_embedded(S, want=('C04',))
     fa += adjacency.explore_field_target(S, want=('C04',))
